@@ -2,28 +2,29 @@
    Trusted glue: byte <-> int uses the fact that [Model.byte] is an enumeration
    of 256 constant constructors in order x00..xff (self-checked at start-up
    against the extracted Byte.to_N). *)
+module ZA = Z
 open Model
 
 let byte_of_int (i : int) : byte = Obj.magic (i land 255)
 let int_of_byte (b : byte) : int = (Obj.magic b : int)
 
-let rec pos_of_z (z : Z.t) : positive =
-  if Z.equal z Z.one then XH
-  else if Z.testbit z 0 then XI (pos_of_z (Z.shift_right z 1))
-  else XO (pos_of_z (Z.shift_right z 1))
+let rec pos_of_z (z : ZA.t) : positive =
+  if ZA.equal z ZA.one then XH
+  else if ZA.testbit z 0 then XI (pos_of_z (ZA.shift_right z 1))
+  else XO (pos_of_z (ZA.shift_right z 1))
 
-let n_of_z (z : Z.t) : n = if Z.sign z <= 0 then N0 else Npos (pos_of_z z)
+let n_of_z (z : ZA.t) : n = if ZA.sign z <= 0 then N0 else Npos (pos_of_z z)
 
-let rec z_of_pos (p : positive) : Z.t =
+let rec z_of_pos (p : positive) : ZA.t =
   match p with
-  | XH -> Z.one
-  | XO p -> Z.shift_left (z_of_pos p) 1
-  | XI p -> Z.succ (Z.shift_left (z_of_pos p) 1)
+  | XH -> ZA.one
+  | XO p -> ZA.shift_left (z_of_pos p) 1
+  | XI p -> ZA.succ (ZA.shift_left (z_of_pos p) 1)
 
-let z_of_n (x : n) : Z.t = match x with N0 -> Z.zero | Npos p -> z_of_pos p
+let z_of_n (x : n) : ZA.t = match x with N0 -> ZA.zero | Npos p -> z_of_pos p
 
-let n_of_int i = n_of_z (Z.of_int i)
-let int_of_n x = Z.to_int (z_of_n x)
+let n_of_int i = n_of_z (ZA.of_int i)
+let int_of_n x = ZA.to_int (z_of_n x)
 
 let self_check () =
   for i = 0 to 255 do
@@ -49,5 +50,16 @@ let tok_of_bytes (b : byte list) : string =
   List.iter (fun c -> Buffer.add_string buf (Printf.sprintf "%02x" (int_of_byte c))) b;
   Buffer.contents buf
 
-let n_of_tok s = n_of_z (Z.of_string s)
-let tok_of_n x = Z.to_string (z_of_n x)
+let n_of_tok s = n_of_z (ZA.of_string s)
+let tok_of_n x = ZA.to_string (z_of_n x)
+
+(* Coq Z <-> zarith *)
+let cz_of_z (z : ZA.t) : Model.z =
+  if ZA.sign z = 0 then Z0 else if ZA.sign z > 0 then Zpos (pos_of_z z) else Zneg (pos_of_z (ZA.neg z))
+let z_of_cz (x : Model.z) : ZA.t = match x with Z0 -> ZA.zero | Zpos p -> z_of_pos p | Zneg p -> ZA.neg (z_of_pos p)
+let cz_of_tok s = cz_of_z (ZA.of_string s)
+let tok_of_cz x = ZA.to_string (z_of_cz x)
+
+(* "-" or comma-joined byte tokens *)
+let bytes_list_of_tok (s : string) : byte list list =
+  if s = "-" then [] else List.map bytes_of_tok (String.split_on_char ',' s)
